@@ -261,7 +261,15 @@ def run_extension_rule(run, rule_id="C09.ext"):
             if not int_branch:
                 vec_negs.append(n)
         if not vec_negs:
-            raise AnalysisError(f"{own}.sub: negation of the right operand not found")
+            # integer form: (a - b) % M must wrap modulo 2**width
+            mods = [x for x in walk_local(g.node) if isinstance(x, ast.BinOp) and isinstance(x.op, ast.Mod) and any(isinstance(y, ast.BinOp) and isinstance(y.op, ast.Sub) for y in ast.walk(x.left))]
+            if not mods:
+                raise AnalysisError(f"{own}.sub: neither a negated operand nor an integer difference found (unknown idiom)")
+            for x in mods:
+                r = x.right
+                pow2 = (isinstance(r, ast.BinOp) and isinstance(r.op, ast.Pow) and src(r.left) == "2") or (isinstance(r, ast.BinOp) and isinstance(r.op, ast.LShift) and src(r.left) == "1")
+                run.ob(pow2, f"{own}.sub", file=rel, line=x.lineno, detail="wraps-modulo-2**w", expected="(a - b) % 2**width", found=src(x)[:70])
+            continue
         for n in vec_negs:
             # some earlier statement on every path to it widens a narrower operand: `if rhs.width < self.width: rhs = rhs.resize(self.width)`
             widened = any(isinstance(a, ast.Assign) and dotted(a.targets[0]) == p_rhs and isinstance(a.value, ast.Call) and isinstance(a.value.func, ast.Attribute) and a.value.func.attr == "resize"
